@@ -60,6 +60,12 @@ structure RState where
 
 def RState.init : RState := {}
 
+/-- `readFrame`'s length gate: the decoded 4-byte length `L` must satisfy `10 ≤ L ≤ cap` before anything is
+    allocated.  `stepByte` applies exactly this gate when the prefix is complete (`stepByte_gate`,
+    Lemmas/HsmsGen); the translation of that part of `readFrame` is tied to it in Props/C04. -/
+def lengthGate (cap L : Nat) : Except Drop Nat :=
+  if L < 10 then .error .lenSmall else if L > cap then .error .lenBig else .ok L
+
 /-- Consume one byte (`Read` returned it). -/
 def stepByte (cap : Nat) (s : RState) (b : UInt8) : RState :=
   match s.dropped with
